@@ -53,7 +53,12 @@ impl<M: GuestMemory> GuestMemoryAtomic<M> {
     }
 
     fn load(&self) -> Guard<Arc<M>> {
-        self.inner.0.load()
+        #[cfg(vm_memory_verif)]
+        crate::verif::shim::sched_point("load.before", 0);
+        let guard = self.inner.0.load();
+        #[cfg(vm_memory_verif)]
+        crate::verif::shim::sched_point("load.after", 0);
+        guard
     }
 
     /// Acquires the update mutex for the `GuestMemoryAtomic`, blocking the current
@@ -62,7 +67,12 @@ impl<M: GuestMemory> GuestMemoryAtomic<M> {
     /// the guard goes out of scope), and optionally also for replacing the
     /// contents of the `GuestMemoryAtomic` when the lock is dropped.
     pub fn lock(&self) -> LockResult<GuestMemoryExclusiveGuard<M>> {
-        match self.inner.1.lock() {
+        #[cfg(vm_memory_verif)]
+        crate::verif::shim::sched_point("lock.before", 0);
+        let res = self.inner.1.lock();
+        #[cfg(vm_memory_verif)]
+        crate::verif::shim::sched_point("lock.acquired", 0);
+        match res {
             Ok(guard) => Ok(GuestMemoryExclusiveGuard {
                 parent: self,
                 _guard: guard,
@@ -135,7 +145,11 @@ impl<M: GuestMemory> GuestMemoryExclusiveGuard<'_, M> {
     /// with the new memory map, `map`.  The lock is then dropped since this
     /// method consumes the guard.
     pub fn replace(self, map: M) {
-        self.parent.inner.0.store(Arc::new(map))
+        #[cfg(vm_memory_verif)]
+        crate::verif::shim::sched_point("replace.before_store", 0);
+        self.parent.inner.0.store(Arc::new(map));
+        #[cfg(vm_memory_verif)]
+        crate::verif::shim::sched_point("replace.after_store", 0);
     }
 }
 
